@@ -2,6 +2,8 @@ package main
 
 import (
 	"fmt"
+	"os"
+	"path/filepath"
 	"sort"
 	"strings"
 
@@ -141,6 +143,44 @@ func init() {
 			}
 			sort.Strings(l)
 			return fmt.Errorf("over 60 fresh runs the children of module m (newest revision) were %v", l)
+		}
+		return nil
+	})
+}
+
+func init() {
+	reg("import-link-disk-order", "C05: which revision an import without revision-date is linked to does not depend on map order when imports are fetched from disk", func() error {
+		dir, err := os.MkdirTemp("", "gyprobe")
+		if err != nil {
+			return nil
+		}
+		defer os.RemoveAll(dir)
+		os.WriteFile(filepath.Join(dir, "foo.yang"), []byte("module foo { namespace \"urn:foo\"; prefix foo; revision 2019-01-01; }"), 0o644)
+		os.WriteFile(filepath.Join(dir, "foo@2020-01-01.yang"), []byte("module foo { namespace \"urn:foo\"; prefix foo; revision 2020-01-01; }"), 0o644)
+		a := "module a { namespace \"urn:a\"; prefix a; import foo { prefix f; } }"
+		b := "module b { namespace \"urn:b\"; prefix b; import foo { prefix f; revision-date 2020-01-01; } }"
+		seen := map[string]bool{}
+		for i := 0; i < 80; i++ {
+			ms := yang.NewModules()
+			ms.AddPath(dir)
+			ms.Parse(a, "a.yang")
+			ms.Parse(b, "b.yang")
+			if errs := ms.Process(); len(errs) > 0 {
+				return fmt.Errorf("process: %v", errs)
+			}
+			imp := ms.Modules["a"].Import[0]
+			if imp.Module == nil {
+				return fmt.Errorf("import not linked")
+			}
+			seen[imp.Module.Current()] = true
+		}
+		if len(seen) > 1 {
+			var l []string
+			for k := range seen {
+				l = append(l, k)
+			}
+			sort.Strings(l)
+			return fmt.Errorf("over 80 fresh runs module a's `import foo` was linked to revisions %v", l)
 		}
 		return nil
 	})
